@@ -20,15 +20,7 @@ var Registry = map[string]func(*ev.Run){
 		r.Cov["transitions"] = r.Cov["transitions"].(int) + c["transitions"]
 		r.Cov["rule"] = "(1) every ordered pair (S,T) of the depth-bounded type alphabets is one converter interface, generated in isolation by the real pipeline under every setting vector with <=k deviations; (2) struct pairs under every field-level deviation operator (renamed, re-cased, twins, nested, behind pointers, dropped, methods, unexported) x target variants x placements x <=2 field-setting lines; real outcome vs three-valued model verdict; states = judged (pair|scenario, settings) combinations, transitions = model rule applications; non-trivial = model plan is not a bare basic copy"
 	},
-	"C01": func(r *ev.Run) {
-		RunRtPairs(r)
-		for _, fam := range []string{"c05", "c06", "c07", "c08", "c10"} {
-			c := RunWorkers(r, fam, []string{pairTier(r)}, "")
-			r.Cov["family_"+fam+"_compiled_cases"] = c["compiled_cases"]
-			r.Cov["evaluations"] = r.Cov["evaluations"].(int) + c["compiled_cases"]
-			r.Cov["states"] = r.Cov["states"].(int) + c["compiled_cases"]
-		}
-	},
+	"C01": func(r *ev.Run) { runAllFamilies(r) },
 	"C02": RunRtPairs,
 	"C04": func(r *ev.Run) {
 		RunRtPairs(r)
@@ -38,7 +30,7 @@ var Registry = map[string]func(*ev.Run){
 		r.Cov["evaluations"] = r.Cov["evaluations"].(int) + c["calls"]
 		r.Cov["states"] = r.Cov["states"].(int) + c["cases_executed"]
 	},
-	"C18": RunRtPairs,
+	"C18": func(r *ev.Run) { runAllFamilies(r) },
 	"C05": func(r *ev.Run) {
 		RunScenarioFamily(r, "c05", len(C05Scenarios(pairTier(r))), "struct pair In{A,B,Name}->Out{A,B,Name} under every source-struct variant x target variant x placement x every subset of <=k field-setting lines; generation outcome vs model verdict, accepted cases executed on all values within the deviation bound against the model plan")
 	},
@@ -75,6 +67,9 @@ var Registry = map[string]func(*ev.Run){
 		r.Cov["evaluations"] = r.Cov["evaluations"].(int) + n
 		r.Cov["states"] = r.Cov["states"].(int) + n
 	},
+	"C14": func(r *ev.Run) {
+		RunScenarioFamily(r, "c14", len(C14Scenarios(pairTier(r))), "all ordered parameter lists of <=k distinct roles {source A, second source B, context by line, context by regex, update target, converter-typed} x all result lists of length <=r over {T, error, int, named error-like interface} for converter methods and goverter:variables function variables (named and unnamed parameters), and for the custom-function use sites extend / map|FUNC / default / struct-method source over {source, second source, context, converter} x results; an independent role classifier predicts accept/reject; accepted ones are generated by the CLI, must compile against the declared signature (parameter order) and are executed against the plan")
+	},
 	"C13": func(r *ev.Run) { RunPairs(r, pairTier(r)) },
 }
 
@@ -107,6 +102,9 @@ var Workers = map[string]func(w *pool.W, shard, n int, args []string) error{
 	"c12": func(w *pool.W, shard, n int, args []string) error { return C12Worker(w, shard, n, args[0]) },
 	"c04nested": func(w *pool.W, shard, n int, args []string) error {
 		return ScenarioWorker(w, shardOf(nestedScenarios(90000, "C04"), shard, n), args[0], true)
+	},
+	"c14": func(w *pool.W, shard, n int, args []string) error {
+		return ScenarioWorker(w, shardOf(C14Scenarios(args[0]), shard, n), args[0], true)
 	},
 	"pairs": func(w *pool.W, shard, n int, args []string) error { return PairWorker(w, shard, n, args[0]) },
 }
@@ -146,4 +144,20 @@ func Replay(prop, path string) int {
 	}
 	fmt.Fprintln(os.Stderr, "unknown replay kind", v.Case["kind"])
 	return 2
+}
+
+// allFamilies are the scenario families whose CLI output is compiled (C01) and inspected (C18).
+var allFamilies = []string{"c05", "c06", "c07", "c08", "c10", "c11", "c12", "c14", "c04nested"}
+
+func runAllFamilies(r *ev.Run) {
+	RunRtPairs(r)
+	for _, fam := range allFamilies {
+		c := RunWorkers(r, fam, []string{pairTier(r)}, "")
+		r.Cov["family_"+fam+"_compiled_cases"] = c["compiled_cases"]
+		r.Cov["family_"+fam+"_files_checked"] = c["generated_files_checked"]
+		r.Cov["evaluations"] = r.Cov["evaluations"].(int) + c["compiled_cases"]
+		r.Cov["states"] = r.Cov["states"].(int) + c["compiled_cases"]
+		r.Cov["traces_validated_against_impl"] = r.Cov["traces_validated_against_impl"].(int) + c["cli_generated_cases"]
+	}
+	r.Cov["rule"] = rtPairRule + "; additionally every accepted scenario of the families " + fmt.Sprint(allFamilies) + " (struct/field settings, custom functions, error wrapping, enums, update, default, settings table, signatures incl. goverter:variables) is generated by the CLI, compiled with API assertions and its emitted files inspected"
 }
